@@ -51,7 +51,7 @@ theorem fixcom_never_drifts (F : Arr n ℝ → Arr n ℝ) (m : Col n ℝ) (hm : 
     by `2` along `x`: the atoms move by `+1` and `−1`) -/
 example (F : Arr 2 ℝ → Arr 2 ℝ) (s : Sys 2 ℝ) :
     let s' := runHistory (fixCom (fun _ => 1)) true F (fun _ => 1)
-      [.fb (fun i k => if i = 0 ∧ k = 0 then 2 else 0)] s
+      [.fb (fun i k => if i = 0 ∧ k = 0 then 2 else 0) (fun _ _ => 1)] s
     s'.q 0 0 = s.q 0 0 + 1 ∧ s'.q 1 0 = s.q 1 0 - 1 := by
   simp [runHistory, runTrial, setPositions, setMomenta, fixCom, com, sumFin_real, Fin.sum_univ_two]
   constructor <;> ring
